@@ -224,3 +224,7 @@ type vfMutex struct{ mu sync.Mutex }
 
 func (m *vfMutex) vfLock()   { m.mu.Lock() }
 func (m *vfMutex) vfUnlock() { m.mu.Unlock() }
+
+// vfFreezeClock(true): until unfrozen, time.Now() keeps returning the last instant
+// (engine only; natively a no-op). Used to pin the instant a callee observes.
+func vfFreezeClock(on bool) {}
